@@ -41,14 +41,15 @@ package analysis
 
 //@ func LoadSources
 //@   props C17
-//@   requires len(sourceFiles) > 0
+//@   -- an empty list is refused with an error (it used to crash: fix 9e07517, see known_findings.json)
+//@   ensures len(sourceFiles) == 0 ==> result3 != nil
 //@   ensures result3 == nil ==> len(result1) == len(sourceFiles)
 //@   ensures result3 == nil ==> (forall i int :: 0 <= i && i < len(sourceFiles) ==> result1[i] != nil && (exists j int :: 0 <= j && j < len(result1[i].GoFiles) && result1[i].GoFiles[j] == filepath.Abs(sourceFiles[i])))
 //@   ensures result3 == nil ==> (forall i int :: 0 <= i && i < len(sourceFiles) ==> isDirAncestor(result2, filepath.Dir(filepath.Abs(sourceFiles[i]))))
 //@   ensures (exists i int :: 0 <= i && i < len(sourceFiles) && second(os.Stat(sourceFiles[i])) != nil) ==> result3 != nil
 //@   ensures result3 == nil ==> packages.PrintErrors(onceResult("golang.org/x/tools/go/packages.Load", 1, "[]*packages.Package")) == 0
 //@   ensures result3 == nil ==> onceResult("golang.org/x/tools/go/packages.Load", 2, "error") == nil
-//@   ensures result3 != nil ==> (exists i int :: 0 <= i && i < len(sourceFiles) && (second(os.Stat(sourceFiles[i])) != nil || second(filepath.Abs(sourceFiles[i])) != nil))
+//@   ensures result3 != nil ==> len(sourceFiles) == 0 || (exists i int :: 0 <= i && i < len(sourceFiles) && (second(os.Stat(sourceFiles[i])) != nil || second(filepath.Abs(sourceFiles[i])) != nil))
 //@           || onceResult("golang.org/x/tools/go/packages.Load", 2, "error") != nil
 //@           || packages.PrintErrors(onceResult("golang.org/x/tools/go/packages.Load", 1, "[]*packages.Package")) > 0
 //@           || (exists i int :: 0 <= i && i < len(sourceFiles) && (forall a, b int :: 0 <= a && a < len(onceResult("golang.org/x/tools/go/packages.Load", 1, "[]*packages.Package")) && 0 <= b && b < len(onceResult("golang.org/x/tools/go/packages.Load", 1, "[]*packages.Package")[a].GoFiles) ==> onceResult("golang.org/x/tools/go/packages.Load", 1, "[]*packages.Package")[a].GoFiles[b] != filepath.Abs(sourceFiles[i])))
